@@ -5,9 +5,12 @@ EXACT dyadic values of the very floats handed to quara; PSD through the shared e
 A verdict is compared only outside the ambiguity band: the model is evaluated at atol*(1-ETA) and atol*(1+ETA); by the
 monotonicity theorems (C01_*_mono) a verdict that is true at the lower and false at the upper end is "in band" (counted as
 trivial, never as agreement); true at the lower end => expected True, false at the upper end => expected False.
-The two verdicts whose code does not pass rtol (State.is_trace_one, Povm.is_identity_sum) are evaluated twice: with rtol = 0
-(what the property demands: atol is the only slack) and with numpy's default rtol = 1e-5 (what the code does); if the
-implementation agrees with the second but not the first this is the finding 'relative-tolerance-slack'."""
+
+The model the implementation is compared with is the model with rtol = 0 everywhere (Props/C01.v: "atol is the only slack"),
+i.e. quara AFTER the repairs fixes/C01-state-is-trace-one-rtol.diff and fixes/C01-povm-is-identity-sum-rtol.diff.
+Before those repairs State.is_trace_one / Povm.is_identity_sum call np.isclose / np.allclose without rtol (numpy's default
+1e-5): when such a verdict disagrees with the rtol = 0 model the model is evaluated once more with rtol = 1e-5, only to CLASSIFY
+the violation ('relative-tolerance-slack' if the implementation equals that variant, 'verdict-mismatch' otherwise)."""
 import math
 import numpy as np
 from common import flow
@@ -18,11 +21,10 @@ ETA = 0.5
 NP_RTOL = 1e-5
 ATOLS = [1e-13, 1e-12, 1e-10, 1e-8, 1e-6, 1e-5, 1e-4, 1e-3, 1e-2]
 GARBAGE = 0.75            # value passed in argument slots that the code path under test must ignore
-REPORT_NONSTANDARD_BASIS_FINDINGS = True   # findings C01-3 / C01-4 (Gate.is_cp and origin objects on non-orthonormal / non-identity-first bases)
 
 SLACK_SITE = {"state": "State.is_trace_one", "povm": "Povm.is_identity_sum"}
 SITES = {
-    "state": {"eq": "State.is_trace_one", "ineq": "State.is_positive_semidefinite", "phys": "State.is_physical", "ctor": "State.__init__"},
+    "state": {"eq": "State.is_trace_one", "ineq": "State.is_positive_semidefinite", "phys": "State.is_physical", "ctor": "State.__init__", "herm": "State.is_hermitian"},
     "povm": {"eq": "Povm.is_identity_sum", "ineq": "Povm.is_positive_semidefinite", "phys": "Povm.is_physical", "ctor": "Povm.__init__"},
     "gate": {"eq": "gate.is_tp", "ineq": "gate.is_cp", "phys": "Gate.is_physical", "ctor": "Gate.__init__"},
     "mprocess": {"eq": "MProcess.is_sum_tp", "ineq": "MProcess.is_cp", "phys": "MProcess.is_physical", "ctor": "MProcess.__init__"},
@@ -182,10 +184,11 @@ def gen_povm(cs, cls, eps, rs, m):
         U = unitary(rs, d) if not real else np.linalg.qr(rs.normal(size=(d, d)))[0].astype(complex)
         gs = groups(rs, d, m)
         Es = [sum(np.outer(U[:, i], U[:, i].conj()) for i in g) for g in gs]
-        if cls == "eig_violate":
-            u = U[:, gs[1][0]]
+        if cls == "eig_violate":                # a RANDOM element gets the negative eigenvalue -eps (another one +eps: the sum stays I)
+            x0 = int(rs.randint(len(gs))); x1 = (x0 + 1 + int(rs.randint(len(gs) - 1))) % len(gs)
+            u = U[:, gs[x1][0]]
             P = np.outer(u, u.conj())
-            Es[0] = Es[0] - eps * P; Es[1] = Es[1] + eps * P
+            Es[x0] = Es[x0] - eps * P; Es[x1] = Es[x1] + eps * P
     else:
         if cls == "rankdef":
             ranks = [max(1, int(math.ceil(d / m)))] * m
@@ -285,7 +288,10 @@ CLASSES = {
     "mprocess": ["interior", "luders", "rankdef", "tp_violate", "cp_violate"],
 }
 VIOLATE = {"tr_violate", "eig_violate", "sum_diag", "sum_offdiag", "tp_violate", "cp_violate", "herm_violate"}
-KS = [0.1, 0.3, 3.0, 10.0, 100.0, 1e4, "O1"]
+KS = [0.1, 0.4, 1.7, 3.0, 10.0, 100.0, 1e4, "O1"]     # 0.4 and 1.7 sit just outside the ambiguity band [0.5, 1.5]: a threshold off by a factor 2 is seen
+
+
+KSW = KS + [0.4, 1.7, 1.7]      # near-threshold violations drawn three times / twice as often
 
 
 def case_eps(case):
@@ -374,8 +380,9 @@ def band(ctx, cs, t, data, a_eq, a_ineq, rtol, none, want=0, pad=True):
     else:
         hi = call(1.0 + ETA)
     out = {}
-    for k in ("eq", "ineq", "phys", "raises"):
-        out[k] = lo[k] if lo[k] == hi[k] else None
+    for k in ("eq", "ineq", "phys", "raises", "herm"):
+        if k in lo:
+            out[k] = lo[k] if lo[k] == hi[k] else None
     return out, lo
 
 
@@ -395,20 +402,38 @@ class WithAtol:
         return False
 
 
-def judge(ctx, sub, t, key, what, impl, e0, ec, case):
-    """compare one implementation verdict with the expectation under rtol=0 (e0) and, where the code uses numpy's default rtol, under 1e-5 (ec)"""
+def judge(ctx, sub, t, key, what, impl, e0, ec_fn, case):
+    """compare one implementation verdict with the expectation of the rtol=0 model (e0: True / False / None = in band).
+    ec_fn (only for the two sites that used numpy's default rtol before the repair): () -> expectation under rtol=1e-5, used
+    only to classify a disagreement."""
     impl = bool(impl)
-    if e0 is None or (t in SLACK_SITE and ec is None):
+    if e0 is None:
         return "band"
     if impl == e0:
         return "ok"
-    if t in SLACK_SITE and ec != e0 and impl == ec:
-        ctx.violation(sub, SLACK_SITE[t], "relative-tolerance-slack",
-                      "%s: %s is %s at atol=%g although the exact defect exceeds atol (model with rtol=0 says %s); it equals the model with numpy's default rtol=1e-5: atol is not the only slack" % (SITES[t][key], what, impl, case["atol"], e0), case)
-        return "slack"
+    if t in SLACK_SITE and ec_fn is not None:
+        ec = ec_fn()     # None: the rtol=1e-5 variant is itself within its ambiguity band for this input
+        if ec is None or (ec != e0 and impl == ec):
+            ctx.violation(sub, SLACK_SITE[t], "relative-tolerance-slack",
+                          "%s: %s is %s at atol=%g although the exact defect exceeds atol (model with rtol=0 says %s); it equals the model with numpy's default rtol=1e-5: atol is not the only slack" % (SITES[t][key], what, impl, case["atol"], e0), case)
+            return "slack"
     ctx.violation(sub, SITES[t][key], "verdict-mismatch",
                   "%s: %s is %s, exact model says %s (atol=%g, class %s, basis %s/%s)" % (SITES[t][key], what, impl, e0, case["atol"], case["cls"], case["shape"], case["basis"]), case)
     return "bad"
+
+
+class Lazy:
+    """expectation under numpy's default rtol, computed at most once and only when a verdict disagrees with the rtol=0 model"""
+    def __init__(self, fn):
+        self.fn, self.val, self.done = fn, None, False
+
+    def get(self, k):
+        if not self.done:
+            self.val, self.done = self.fn(), True
+        return self.val[k]
+
+    def at(self, k):
+        return lambda: self.get(k)
 
 
 def chk_obj(ctx, case):
@@ -416,7 +441,7 @@ def chk_obj(ctx, case):
     cs = get_cs(case["shape"], case["basis"])
     a = float(case["atol"]); a2 = float(case.get("atol2", a))
     data = gen_data(cs, case)
-    cheap = cs.d <= 3
+    cheap = t in ("state", "povm") or cs.d <= 2      # cheap: the explicit-atol and the mixed-tolerance expectations get their own model evaluations
     key = (t, case["shape"], case["basis"], case["cls"], case["atol"], str(case.get("k")), case["seed"])
     # ---- MProcess on a basis whose flag is False: the constructor must raise whatever is asked (modelled error branch)
     if t == "mprocess" and not cs.flag:
@@ -432,59 +457,74 @@ def chk_obj(ctx, case):
     obj = build(cs, t, data, required=False)
     want = 1 if (t == "gate" and cs.d <= 3) else 0
     has_rtol = t in SLACK_SITE
-    # ---- expectations
+    # ---- expectations (model with rtol = 0); the rtol = 1e-5 variants are evaluated lazily, only to classify a disagreement
     n0, n0lo = band(ctx, cs, t, data, a, a, 0.0, True, want)                 # atol=None path (Settings) incl. constructor
-    nc = band(ctx, cs, t, data, a, a, NP_RTOL, True)[0] if has_rtol else n0
+    nc = Lazy(lambda: band(ctx, cs, t, data, a, a, NP_RTOL, True)[0]) if has_rtol else None
     if cheap:
         e0, e0lo = band(ctx, cs, t, data, a, a, 0.0, False)                  # explicit atol arguments
-        ec = band(ctx, cs, t, data, a, a, NP_RTOL, False)[0] if has_rtol else e0
+        ec = Lazy(lambda: band(ctx, cs, t, data, a, a, NP_RTOL, False)[0]) if has_rtol else None
         x0 = band(ctx, cs, t, data, a, a2, 0.0, False)[0]                    # different tolerances for the two constraints
-        xc = band(ctx, cs, t, data, a, a2, NP_RTOL, False)[0] if has_rtol else x0
+        xc = Lazy(lambda: band(ctx, cs, t, data, a, a2, NP_RTOL, False)[0]) if has_rtol else None
     else:
         e0, ec, e0lo = n0, nc, n0lo
         x0 = xc = None
+
+    def L(lz, k):
+        return lz.at(k) if lz is not None else None
     # ---- implementation
-    res = []
-    res.append(judge(ctx, sub, t, "eq", "is_eq_constraint_satisfied(atol)", obj.is_eq_constraint_satisfied(a), e0["eq"], ec["eq"], case))
-    res.append(judge(ctx, sub, t, "ineq", "is_ineq_constraint_satisfied(atol)", obj.is_ineq_constraint_satisfied(a), e0["ineq"], ec["ineq"], case))
-    res.append(judge(ctx, sub, t, "phys", "is_physical(atol, atol)", obj.is_physical(a, a), e0["phys"], ec["phys"], case))
+    judge(ctx, sub, t, "eq", "is_eq_constraint_satisfied(atol)", obj.is_eq_constraint_satisfied(a), e0["eq"], L(ec, "eq"), case)
+    judge(ctx, sub, t, "ineq", "is_ineq_constraint_satisfied(atol)", obj.is_ineq_constraint_satisfied(a), e0["ineq"], L(ec, "ineq"), case)
+    judge(ctx, sub, t, "phys", "is_physical(atol, atol)", obj.is_physical(a, a), e0["phys"], L(ec, "phys"), case)
     if x0 is not None:
-        res.append(judge(ctx, sub, t, "phys", "is_physical(atol_eq_const=%g, atol_ineq_const=%g)" % (a, a2),
-                         obj.is_physical(atol_eq_const=a, atol_ineq_const=a2), x0["phys"], xc["phys"], case))
+        judge(ctx, sub, t, "phys", "is_physical(atol_eq_const=%g, atol_ineq_const=%g)" % (a, a2),
+              obj.is_physical(atol_eq_const=a, atol_ineq_const=a2), x0["phys"], L(xc, "phys"), case)
     with WithAtol(a):
         i_eq = obj.is_eq_constraint_satisfied(); i_ineq = obj.is_ineq_constraint_satisfied(); i_ph = obj.is_physical()
         try:
             build(cs, t, data, required=True); raised = False
         except ValueError:
             raised = True
-    res.append(judge(ctx, sub, t, "eq", "is_eq_constraint_satisfied() under Settings atol", i_eq, n0["eq"], nc["eq"], case))
-    res.append(judge(ctx, sub, t, "ineq", "is_ineq_constraint_satisfied() under Settings atol", i_ineq, n0["ineq"], nc["ineq"], case))
-    res.append(judge(ctx, sub, t, "phys", "is_physical() under Settings atol", i_ph, n0["phys"], nc["phys"], case))
-    res.append(judge(ctx, sub, t, "ctor", "constructor(is_physicality_required=True) raises", raised, n0["raises"], nc["raises"], case))
+    judge(ctx, sub, t, "eq", "is_eq_constraint_satisfied() under Settings atol", i_eq, n0["eq"], L(nc, "eq"), case)
+    judge(ctx, sub, t, "ineq", "is_ineq_constraint_satisfied() under Settings atol", i_ineq, n0["ineq"], L(nc, "ineq"), case)
+    judge(ctx, sub, t, "phys", "is_physical() under Settings atol", i_ph, n0["phys"], L(nc, "phys"), case)
+    judge(ctx, sub, t, "ctor", "constructor(is_physicality_required=True) raises", raised, n0["raises"], L(nc, "raises"), case)
     # the verdict functions of the specific class
     if t == "state":
-        judge(ctx, sub, t, "eq", "is_trace_one(atol)", obj.is_trace_one(a), e0["eq"], ec["eq"], case)
-        judge(ctx, sub, t, "ineq", "is_positive_semidefinite(atol)", obj.is_positive_semidefinite(a), e0["ineq"], ec["ineq"], case)
+        judge(ctx, sub, t, "eq", "is_trace_one(atol)", obj.is_trace_one(a), e0["eq"], L(ec, "eq"), case)
+        judge(ctx, sub, t, "ineq", "is_positive_semidefinite(atol)", obj.is_positive_semidefinite(a), e0["ineq"], L(ec, "ineq"), case)
+        judge(ctx, sub, t, "herm", "is_hermitian(atol)", obj.is_hermitian(a), e0["herm"], None, case)
         tr = complex(np.trace(obj.to_density_matrix()))
         if abs(tr - e0lo["tr"]) > 1e-12 * (1 + abs(tr)):
             ctx.violation(sub, "State.to_density_matrix", "value", "trace of the denoted operator %r, model %r" % (tr, e0lo["tr"]), case)
     elif t == "povm":
-        judge(ctx, sub, t, "eq", "is_identity_sum(atol)", obj.is_identity_sum(a), e0["eq"], ec["eq"], case)
-        judge(ctx, sub, t, "ineq", "is_positive_semidefinite(atol)", obj.is_positive_semidefinite(a), e0["ineq"], ec["ineq"], case)
+        judge(ctx, sub, t, "eq", "is_identity_sum(atol)", obj.is_identity_sum(a), e0["eq"], L(ec, "eq"), case)
+        judge(ctx, sub, t, "ineq", "is_positive_semidefinite(atol)", obj.is_positive_semidefinite(a), e0["ineq"], L(ec, "ineq"), case)
         S = np.asarray(obj._sum_matrix())
         if np.abs(S - e0lo["sum"]).max() > 1e-12 * (1 + np.abs(S).max()):
             ctx.violation(sub, "Povm._sum_matrix", "value", "sum of the elements differs from the model by %g" % np.abs(S - e0lo["sum"]).max(), case)
     elif t == "gate":
-        judge(ctx, sub, t, "eq", "is_tp(atol)", obj.is_tp(a), e0["eq"], ec["eq"], case)
-        judge(ctx, sub, t, "ineq", "is_cp(atol)", obj.is_cp(a), e0["ineq"], ec["ineq"], case)
+        judge(ctx, sub, t, "eq", "is_tp(atol)", obj.is_tp(a), e0["eq"], None, case)
+        judge(ctx, sub, t, "ineq", "is_cp(atol)", obj.is_cp(a), e0["ineq"], None, case)
         if want:
             C = np.asarray(obj.to_choi_matrix_with_sparsity())
             if np.abs(C - n0lo["choi"]).max() > 1e-11 * (1 + np.abs(C).max()):
                 ctx.violation(sub, "gate.to_choi_from_hs_with_sparsity", "value", "Choi matrix differs from the model by %g" % np.abs(C - n0lo["choi"]).max(), case)
     else:
-        judge(ctx, sub, t, "eq", "is_sum_tp(atol)", obj.is_sum_tp(a), e0["eq"], ec["eq"], case)
-        judge(ctx, sub, t, "ineq", "is_cp(atol)", obj.is_cp(a), e0["ineq"], ec["ineq"], case)
-    determined = e0["eq"] is not None and e0["ineq"] is not None and not (has_rtol and ec["eq"] is None)
+        judge(ctx, sub, t, "eq", "is_sum_tp(atol)", obj.is_sum_tp(a), e0["eq"], None, case)
+        judge(ctx, sub, t, "ineq", "is_cp(atol)", obj.is_cp(a), e0["ineq"], None, case)
+    # loosening the tolerance never turns a true verdict false: evaluated directly on the implementation over the whole grid
+    # (exact in floating point too: the same trace / sum / eigenvalues are compared with a growing threshold; theorems C01_*_monotone)
+    grid = sorted(set(ATOLS + [a, a2]))
+    for nm, f in (("eq", obj.is_eq_constraint_satisfied), ("ineq", obj.is_ineq_constraint_satisfied), ("phys", lambda x: obj.is_physical(x, x))):
+        seen = None
+        for g in grid:
+            r = bool(f(g))
+            if seen is not None and not r:
+                ctx.violation(sub, SITES[t][nm], "not-monotone-in-atol", "%s: true at atol=%g but false at the looser atol=%g" % (SITES[t][nm], seen, g), case)
+                break
+            if r and seen is None:
+                seen = g
+    determined = e0["eq"] is not None and e0["ineq"] is not None
     lab = "%s:eq=%s,ineq=%s" % (case["cls"], {True: "T", False: "F", None: "band"}[e0["eq"]], {True: "T", False: "F", None: "band"}[e0["ineq"]])
     ctx.count(sub, key=key, nontrivial=determined, label=lab)
     ctx.count(sub + "-basis", key=key, nontrivial=False, label="%s/%s" % (case["shape"], case["basis"]))
@@ -501,10 +541,11 @@ def make_cases(ctx, t, plan):
             cls = CLASSES[t][rng.randrange(len(CLASSES[t]))] if i >= len(CLASSES[t]) else CLASSES[t][i]
             if kind == "comp" and t == "state" and rng.random() < 0.4:
                 cls = "herm_violate"
-            a = ATOLS[rng.randrange(len(ATOLS))]
-            a2 = ATOLS[rng.randrange(len(ATOLS))]
+            # tolerances: the grid, or (every other case) log-uniform in [1e-13, 1e-2] rounded to 3 significant digits
+            a = ATOLS[rng.randrange(len(ATOLS))] if i % 2 == 0 else float("%.2e" % (10.0 ** rng.uniform(-13, -2)))
+            a2 = ATOLS[rng.randrange(len(ATOLS))] if i % 3 else float("%.2e" % (10.0 ** rng.uniform(-13, -2)))
             case = {"type": t, "shape": shape, "basis": kind, "cls": cls, "atol": a, "atol2": a2,
-                    "k": KS[rng.randrange(len(KS))] if cls in VIOLATE else None,
+                    "k": KSW[rng.randrange(len(KSW))] if cls in VIOLATE else None,
                     "sign": rng.choice([1, 1, -1]) if cls in ("tr_violate", "sum_diag", "tp_violate") else 1,
                     "m": rng.randint(2, 5), "seed": rng.randrange(2 ** 31)}
             cases.append(case)
@@ -513,21 +554,21 @@ def make_cases(ctx, t, plan):
 
 def sub_state(ctx):
     allk = FLAG_KINDS + GENERIC_KINDS + ["comp"]
-    plan = [("q", allk, ctx.n(64, 400)), ("t", allk, ctx.n(48, 400)), ("qq", allk, ctx.n(32, 300)), ("qt", allk, ctx.n(24, 400))]
+    plan = [("q", allk, ctx.n(96, 400)), ("t", allk, ctx.n(72, 400)), ("qq", allk, ctx.n(48, 300)), ("qt", allk, ctx.n(32, 400))]
     cases = make_cases(ctx, "state", plan)
     ctx.sample("state", cases[3]); ctx.run_cases("state", chk_obj, cases)
 
 
 def sub_povm(ctx):
     allk = FLAG_KINDS + GENERIC_KINDS + ["comp"]
-    plan = [("q", allk, ctx.n(48, 400)), ("t", allk, ctx.n(40, 400)), ("qq", allk, ctx.n(24, 300)), ("qt", allk, ctx.n(16, 300))]
+    plan = [("q", allk, ctx.n(64, 400)), ("t", allk, ctx.n(56, 400)), ("qq", allk, ctx.n(32, 300)), ("qt", allk, ctx.n(24, 300))]
     cases = make_cases(ctx, "povm", plan)
     ctx.sample("povm", cases[3]); ctx.run_cases("povm", chk_obj, cases)
 
 
 def sub_gate(ctx):
     allk = FLAG_KINDS + ["nherm", "perm", "unnorm", "herm", "mixed"]
-    plan = [("q", allk, ctx.n(56, 500)), ("t", allk, ctx.n(21, 200)), ("qq", ["named", "perm", "unnorm"], ctx.n(3, 24)), ("qt", ["named", "nherm"], ctx.n(0, 4))]
+    plan = [("q", allk, ctx.n(56, 500)), ("t", allk, ctx.n(21, 200)), ("qq", ["named", "perm", "unnorm"], ctx.n(3, 24)), ("qt", ["named", "nherm"], ctx.n(0, 2))]   # one qubit x qutrit gate costs ~1.5 min of exact 72x72 PSD decision
     cases = make_cases(ctx, "gate", plan)
     ctx.sample("gate", cases[3]); ctx.run_cases("gate", chk_obj, cases)
 
@@ -595,19 +636,20 @@ def chk_origin(ctx, case):
         ctx.violation("origin", "QOperation.generate_zero_obj", "not-zero-operator", "%s zero object does not denote the zero operator" % t, case)
     if org.is_physicality_required or zer.is_physicality_required:
         ctx.violation("origin", "QOperation.generate_origin_obj", "flags", "origin / zero object must not require physicality", case)
-    # origin object: verdicts as the model says; physical whenever the basis is orthonormal, Hermitian, identity-first (theorem C01_*_origin_physical)
+    # origin object: its verdicts are the model's verdicts on the same data (every basis); on an orthonormal, Hermitian, identity-first
+    # basis (the flag) it must be physical at every tolerance (theorems C01_*_origin_physical).  _generate_origin_obj hard-codes the
+    # coefficients for B_0 = I/sqrt(d); it is not one of the basis-generic branches, so nothing is claimed about physicality elsewhere.
     odata = obj_data(t, org)
     for a in case["atols"]:
         e0 = band(ctx, cs, t, odata, a, a, 0.0, False, pad=False)[0]
-        ec = band(ctx, cs, t, odata, a, a, NP_RTOL, False, pad=False)[0] if t in SLACK_SITE else e0
+        ec = Lazy(lambda: band(ctx, cs, t, odata, a, a, NP_RTOL, False, pad=False)[0]) if t in SLACK_SITE else None
         c2 = dict(case, atol=a, cls="origin")
-        st = judge(ctx, "origin", t, "phys", "origin.is_physical(atol, atol)", org.is_physical(a, a), e0["phys"], ec["phys"], c2)
+        judge(ctx, "origin", t, "phys", "origin.is_physical(atol, atol)", org.is_physical(a, a), e0["phys"], ec.at("phys") if ec else None, c2)
         ctx.count("origin", key=key + (a,), nontrivial=e0["phys"] is not None, label="origin-phys=%s" % e0["phys"])
-        if cs.flag and e0["phys"] is False:
+        if cs.flag and e0["phys"] is not True:
             ctx.violation("origin", "QOperation.generate_origin_obj", "origin-not-physical", "%s origin object on a standard basis is not physical at atol=%g (exact model)" % (t, a), c2)
-        if (not cs.flag) and e0["phys"] is False and st == "ok" and a == case["atols"][-1] and REPORT_NONSTANDARD_BASIS_FINDINGS:
-            ctx.violation("origin", "QOperation.generate_origin_obj", "assumes-normalised-identity-first-basis",
-                          "%s origin object on basis %s/%s is not physical even at atol=%g: _generate_origin_obj hard-codes coefficients that are right only when B_0 = I/sqrt(d)" % (t, case["shape"], case["basis"], a), c2)
+        if cs.flag and not org.is_physical(a, a):
+            ctx.violation("origin", "QOperation.generate_origin_obj", "origin-not-physical", "%s origin object on a standard basis: is_physical(%g, %g) is False" % (t, a, a), c2)
 
 
 def sub_origin(ctx):
@@ -627,49 +669,35 @@ def sub_origin(ctx):
 def chk_witness(ctx, case):
     w = case["witness"]
     a = 1e-13
-    if w == "state-trace":          # Props/C01.v  C01_state_trace_verdict_refuted : 2-qubit normalised Pauli basis, v = (1+5e-6)/2 * e_0
+    # the witnesses of Props/C01.v C01_state_trace_default_rtol_refuted / C01_povm_identity_sum_default_rtol_refuted (the verdicts as coded
+    # BEFORE the rtol repairs accept them at atol = 1e-13); the repaired code = the rtol=0 model must reject them (C01_*_witness_rejected)
+    if w == "state-trace":          # 2-qubit normalised Pauli basis, v = (1+5e-6)/2 * e_0
         cs = get_cs("qq", "named"); t = "state"
         data = np.zeros(16); data[0] = (1 + 5e-6) / 2
-    elif w == "povm-identity-sum":  # C01_povm_identity_sum_refuted : two elements (1+5e-6)/2 * I each
+    elif w == "povm-identity-sum":  # two elements (1+5e-6)/2 * I each
         cs = get_cs("qq", "named"); t = "povm"
         v = np.zeros(16); v[0] = (1 + 5e-6); data = [v.copy(), v.copy()]
-    elif w == "gate-cp-nonorthonormal":   # finding C01-3
-        from quara.objects.gate import Gate
-        cs = get_cs("q", "herm"); t = "gate"
-        data = np.eye(4)
-        obj = build(cs, t, data)  if False else Gate(cs.c, data, is_physicality_required=False)
-        # the identity map is completely positive (its Choi matrix sum_ij E_ij (x) E_ij is |I>><<I| >= 0, checked exactly below)
-        d = cs.d
-        C = reshuffle(np.eye(d * d, dtype=complex), d)
-        from common import qcheck
-        true_cp = qcheck.herm_psd(ctx, C, 0.0)
-        impl = bool(obj.is_cp(1e-8))
-        mod = model_call(ctx, cs, t, data, GARBAGE, 1e-8, 1e-8, 0.0, False, 0, pad=False)["ineq"]
-        ctx.count("witness", key=w, nontrivial=True, label=w)
-        if impl != mod:
-            ctx.violation("witness", "gate.is_cp", "verdict-mismatch", "identity gate on get_hermitian_basis(2): is_cp=%s, model %s" % (impl, mod), case)
-        elif true_cp and not impl and REPORT_NONSTANDARD_BASIS_FINDINGS:
-            ctx.violation("witness", "gate.is_cp", "choi-formula-assumes-orthonormal-basis",
-                          "identity gate (HS = I, completely positive) on the orthogonal, non-normalised basis get_hermitian_basis(2): is_cp() is False; sum_ab HS_ab B_a (x) conj(B_b) is the Choi matrix only for an orthonormal basis", case)
-        return
     else:
         return
     c2 = dict(case, type=t, atol=a, cls="witness", shape="qq", basis="named")
     obj = build(cs, t, data, required=False)
-    e0 = band(ctx, cs, t, data, a, a, 0.0, False)[0]; ec = band(ctx, cs, t, data, a, a, NP_RTOL, False)[0]
+    e0 = band(ctx, cs, t, data, a, a, 0.0, False)[0]; ec = Lazy(lambda: band(ctx, cs, t, data, a, a, NP_RTOL, False)[0])
     ctx.count("witness", key=w, nontrivial=e0["eq"] is not None, label=w)
-    judge(ctx, "witness", t, "eq", "is_eq_constraint_satisfied(1e-13) on a defect of 5e-6", obj.is_eq_constraint_satisfied(a), e0["eq"], ec["eq"], c2)
+    if e0["eq"] is not False or e0["phys"] is not False:
+        ctx.violation("witness", "Props/C01.v", "witness-model", "the rtol=0 model does not reject the 5e-6 witness at atol=1e-13", c2, no_input=True)
+    judge(ctx, "witness", t, "eq", "is_eq_constraint_satisfied(1e-13) on a defect of 5e-6", obj.is_eq_constraint_satisfied(a), e0["eq"], ec.at("eq"), c2)
+    judge(ctx, "witness", t, "phys", "is_physical(1e-13, 1e-13) on a defect of 5e-6", obj.is_physical(a, a), e0["phys"], ec.at("phys"), c2)
     with WithAtol(a):
         try:
             build(cs, t, data, required=True); raised = False
         except ValueError:
             raised = True
-    n0 = band(ctx, cs, t, data, a, a, 0.0, True)[0]; nc = band(ctx, cs, t, data, a, a, NP_RTOL, True)[0]
-    judge(ctx, "witness", t, "ctor", "constructor(is_physicality_required=True) raises on a defect of 5e-6 under Settings atol 1e-13", raised, n0["raises"], nc["raises"], c2)
+    n0 = band(ctx, cs, t, data, a, a, 0.0, True)[0]; nc = Lazy(lambda: band(ctx, cs, t, data, a, a, NP_RTOL, True)[0])
+    judge(ctx, "witness", t, "ctor", "constructor(is_physicality_required=True) raises on a defect of 5e-6 under Settings atol 1e-13", raised, n0["raises"], nc.at("raises"), c2)
 
 
 def sub_witness(ctx):
-    cases = [{"witness": "state-trace"}, {"witness": "povm-identity-sum"}, {"witness": "gate-cp-nonorthonormal"}]
+    cases = [{"witness": "state-trace"}, {"witness": "povm-identity-sum"}]
     ctx.sample("witness", cases[0]); ctx.run_cases("witness", chk_witness, cases)
 
 
@@ -684,12 +712,14 @@ def chk_tp_branches(ctx, case):
     hs = gen_data(cs, case)
     c_off = copy.copy(cs.c)
     c_off._is_orthonormal_hermitian_0thprop_identity = False
-    lo = model_call(ctx, cs, "gate", hs, GARBAGE, a * (1 - ETA), a * (1 - ETA), 0.0, False, 0)
-    hi = model_call(ctx, cs, "gate", hs, GARBAGE, a * (1 + ETA), a * (1 + ETA), 0.0, False, 0)
-    slo = model_call(ctx, cs, "gate", hs, GARBAGE, cs.sd * a * (1 - ETA), a, 0.0, False, 0)
-    shi = model_call(ctx, cs, "gate", hs, GARBAGE, cs.sd * a * (1 + ETA), a, 0.0, False, 0)
-    e_row = lo["tp_row"] if lo["tp_row"] == hi["tp_row"] else None
-    e_tr = slo["tp_trace"] if slo["tp_trace"] == shi["tp_trace"] else None
+    m = ctx.get_model()
+
+    def tp(f):      # [first-row branch at atol*f, trace branch at sd*atol*f]   (op c01.gate_tp: no Choi matrix, no PSD decision)
+        r = m.call("c01.gate_tp", [cs.d], [a * f, cs.sd * a * f] + cs.bflat + rflat(hs))
+        return bool(r[0]), bool(r[1])
+    lo = tp(1 - ETA); hi = tp(1 + ETA)
+    e_row = lo[0] if lo[0] == hi[0] else None
+    e_tr = lo[1] if lo[1] == hi[1] else None
     i_row = bool(qgate.is_tp(cs.c, hs, a)); i_tr = bool(qgate.is_tp(c_off, hs, cs.sd * a))
     det = e_row is not None and e_tr is not None
     ctx.count("tp_branches", key=(case["shape"], case["basis"], case["cls"], case["atol"], str(case["k"]), case["seed"]), nontrivial=det, label="%s:row=%s" % (case["cls"], e_row))
@@ -720,10 +750,10 @@ FNS = {"witness": chk_witness, "state": chk_obj, "povm": chk_obj, "gate": chk_ob
 def run(ctx):
     ctx.rule = ("4 object types x shapes {qubit, qutrit, 2 qubits, qubit x qutrit} x bases {normalised Pauli / Gell-Mann, normalised generalised Gell-Mann, "
                 "unnormalised Pauli / Gell-Mann, (un)normalised Hermitian-unit basis (identity not first), permuted, non-orthogonal integer mixture, computational (non-Hermitian)} "
-                "x atol in {1e-13..1e-2} x classes {interior, pure / rank-deficient / projective / unitary / Lueders boundary, violated by k*atol along the trace / identity-sum / first-row / "
-                "smallest-eigenvalue direction, k in {0.1, 0.3, 3, 10, 100, 1e4, 0.3/atol}}; every object is generated from a per-case seed in floating point, the model consumes the exact dyadic values "
+                "x atol in {1e-13, 1e-12, 1e-10, 1e-8, 1e-6, 1e-5, 1e-4, 1e-3, 1e-2} or log-uniform in [1e-13, 1e-2] x classes {interior, pure / rank-deficient / projective / unitary / Lueders boundary, violated by k*atol along the trace / identity-sum / first-row / "
+                "smallest-eigenvalue direction, k in {0.1, 0.4, 1.7, 3, 10, 100, 1e4, 0.3/atol}}; every object is generated from a per-case seed in floating point, the model consumes the exact dyadic values "
                 "of the same floats. Expected verdicts: extracted Coq model at atol*(1-0.5) and atol*(1+0.5); in-band cases are trivial. non-trivial = both the equality and the inequality verdict are out of band; "
-                "distinct = distinct (type, shape, basis, class, atol, k, seed). Constructor raise/accept and the atol=None path (Settings.set_atol, restored) run on the same stream.")
+                "distinct = distinct (type, shape, basis, class, atol, k, seed). Constructor raise/accept, the atol=None path (Settings.set_atol, restored) and monotonicity of the implementation's verdicts over the tolerance grid run on the same stream.")
     flow.standard_run(ctx, SUBS)
 
 
